@@ -212,6 +212,7 @@ func main() {
 			opt.Workers = 1
 		}
 		res, err := sess.Explore(fn, opt)
+		interp.DumpForkProfile()
 		if err != nil {
 			fmt.Printf("INCONCLUSIVE property=%s harness=%s engine error: %v\n", *prop, h.Func, err)
 			problems = append(problems, err.Error())
